@@ -1,5 +1,6 @@
 import Gomjml.Core.Validate
 import Gomjml.Core.Api
+import Gomjml.Core.Lines
 /-! # C17 — validation errors are exact and never suppress the HTML (property theorems only) -/
 namespace Gomjml.Props.C17
 open Gomjml.Validate
@@ -46,5 +47,68 @@ theorem C17_sites :
       [("report", "mjml/components.validateComponentAttributes"), ("validate", "mjml/components.NewBaseComponent")] ∧
     ∀ r ∈ Gomjml.Gen.Allowed.allowed, r.1 ∈ Gomjml.Gen.Allowed.factoryTags ∨ r.1 = "mj-breakpoint" := by
   decide +kernel
+
+/-! ## the reported line is a line of the ORIGINAL input
+
+    `ParseMJML` rewrites the text three times (comments and blank lines in front of the root are stripped, entities are
+    replaced, the content of every mj-text is wrapped into CDATA and its void tags are normalised) and looks the line of an
+    element up in the rewritten text, adding the number of stripped lines.  The Models of the three passes are byte-exact
+    (correspondence on every run); the statements below hold for **every** input text. -/
+open Gomjml.Lines Gomjml.Passes
+
+/-- `wrapMJTextContent` as an edit script: the segments are segments of the input, the output is what the segments write, and
+    no replaced piece gains or loses a line feed -/
+theorem C17_wrap_moves_no_line (s : List UInt8) :
+    srcOf (wrapSegs (s.length + 1) s) = s ∧ dstOf (wrapSegs (s.length + 1) s) = wrap s ∧ LineOk (wrapSegs (s.length + 1) s) :=
+  ⟨wrapSegs_src _ s, rfl, wrapSegs_ok _ s⟩
+
+/-- the same for the ampersand pass and for every regenerated `strings.ReplaceAll` step of `preprocessHTMLEntities` -/
+theorem C17_entities_move_no_line (s : List UInt8) :
+    (srcOf (escSegs entTable false 0 s) = s ∧ dstOf (escSegs entTable false 0 s) = escapeAmp s ∧ LineOk (escSegs entTable false 0 s)) ∧
+    ∀ st ∈ Gomjml.Gen.Parser.entityStepsB,
+      srcOf (replSegs st.1 st.2 s) = s ∧ dstOf (replSegs st.1 st.2 s) = replaceAll st.1 st.2 s ∧ LineOk (replSegs st.1 st.2 s) :=
+  ⟨⟨escSegs_src _ s _ _, escSegs_dst _ s _ _, escSegs_ok _ s _ _⟩,
+   fun st hst => ⟨replSegs_src _ _ _ s (Nat.le_refl _), replSegs_dst _ _ _ s (Nat.le_refl _),
+     replSegs_ok _ _ (steps_no_lf st hst) _ s (Nat.le_refl _)⟩⟩
+
+/-- **the reported line is the line of the same place in the input.**  Take any input `s` with a root element (`p` in front
+    of it), a place `m` bytes behind the start of the root, and the offset `k` of the same place in the text the decoder reads
+    (the same kept byte through all three passes, `PipeRel`).  The line `lineLookup` reports for `k` (`lineImpl`), plus the
+    line base `strings.Count(input, "\n") - strings.Count(stripped, "\n")`, is 1 + the number of line feeds in front of
+    that place **in the input** -/
+theorem C17_reported_line_is_input_line (s p root : List UInt8) (h : splitAtRoot s = some (p, root)) (m k : Nat)
+    (hrel : PipeRel s ((trimLeft (dropComments p)).length + m) k) :
+    lineImpl (preprocess s) k + (nl s - nl (strip s)) = lineSpec s (p.length + m) := by
+  rw [C17_line_lookup]
+  unfold lineSpec
+  have e1 := pipe_lines s _ k hrel
+  have e2 := strip_lines s p root h m
+  unfold nl at e1 e2 ⊢
+  omega
+
+/-- what the Models of the passes are written with is what the source is written with (regenerated): the needles and CDATA
+    delimiters of `wrapMJTextContent`, the literals of the void-tag pattern and of its replacement, the void element names
+    (none contains `>` or a capital), and `ParseMJML`'s use of the passes, of the line base and of the decoder's input -/
+theorem C17_prepass_source :
+    Gomjml.Gen.Parser.wrapConstsB =
+      [("cdataEnd", cdEnd), ("cdataEndSafe", cdEndSafe), ("cdataStart", cdStart), ("closeNeedle", stem ++ [62]), ("openNeedle", openN)] ∧
+    Gomjml.Gen.Parser.voidNormaliserLits =
+      [("buildVoidElementsRegexPattern", "(?i)<(?:"), ("buildVoidElementsRegexPattern", "|"),
+       ("buildVoidElementsRegexPattern", ")([^>]*?)/>"), ("normalizeSelfClosingVoidTags", " "), ("normalizeSelfClosingVoidTags", " />")] ∧
+    (∀ n ∈ Gomjml.Gen.Parser.voidElementsB, n ≠ [] ∧ ∀ b ∈ n, 97 ≤ b ∧ b ≤ 122) ∧
+    Gomjml.Gen.Parser.parsePipeline =
+      [("processedContent", "stripNonMSOComments(mjmlContent)"),
+       ("strippedLines", "strings.Count(mjmlContent, \"\\n\") - strings.Count(processedContent, \"\\n\")"),
+       ("processedContent", "preprocessHTMLEntities(processedContent)"),
+       ("processedContent", "wrapMJTextContent(processedContent)"),
+       ("contentBytes", "[]byte(processedContent)"),
+       ("lookup", "newLineLookup(contentBytes)"),
+       ("lookup.lineBase", "strippedLines"),
+       ("decoder", "xml.NewDecoder(bytes.NewReader(contentBytes))")] := by
+  decide +kernel
+
+/-- non-vacuity of `Rel`: behind a replaced piece of another length a kept byte is related to its shifted copy -/
+example : Rel [.keep [1, 2], .repl [3] [4, 5, 6], .keep [7, 10, 8]] 5 7 :=
+  ⟨[.keep [1, 2], .repl [3] [4, 5, 6]], [7, 10, 8], [], 2, rfl, by decide, rfl, rfl⟩
 
 end Gomjml.Props.C17
